@@ -17,7 +17,6 @@ import (
 	"fmt"
 	"net"
 	"os"
-	"runtime"
 	"sort"
 	"strings"
 	"sync"
@@ -156,9 +155,18 @@ func (w *world) closeFace(l face.LinkService) {
 	l.Close()
 }
 
-func (w *world) goroutineIn(pat string) bool {
-	buf := make([]byte, 1<<18)
-	return strings.Contains(string(buf[:runtime.Stack(buf, true)]), pat)
+// routesOf counts the RIB routes that point at a face. The RIB's mutex is held for the whole of
+// CleanUpFace, so once this is 0 after the face left the face table, the clean-up is complete.
+func routesOf(id uint64) int {
+	n := 0
+	for _, e := range table.Rib.GetAllEntries() {
+		for _, r := range e.GetRoutes() {
+			if r.FaceID == id {
+				n++
+			}
+		}
+	}
+	return n
 }
 
 // trackCreated remembers faces that appeared in the face table (faces/create) for teardown.
@@ -252,17 +260,8 @@ func (w *world) teardown() {
 	<-w.fwt.HasQuit
 	core.ShouldQuit = false
 	// every goroutine of this history (faces, threads) has to be gone before the next one starts
-	// every goroutine of this history's faces and threads has to be gone before the next history
-	// starts (face removal ends with RIB/FIB clean-up on the face's own goroutine). PIT timer
-	// callbacks of the stopped forwarding thread may stay blocked for ever; they touch nothing.
-	waitUntil("goroutines gone", func() bool {
-		buf := make([]byte, 1<<18)
-		st := string(buf[:runtime.Stack(buf, true)])
-		return !strings.Contains(st, "fw/face.(*NDNLPLinkService)") && !strings.Contains(st, "fw/mgmt.(*Thread)") &&
-			!strings.Contains(st, "fw/fw.(*Thread)") && !strings.Contains(st, "fw/face.(*Table).Remove") &&
-			!strings.Contains(st, "fw/face.(*NullLinkService)") && !strings.Contains(st, "fw/face.(*UnicastUDPTransport)") &&
-			!strings.Contains(st, "fw/face.(*UnicastTCPTransport)")
-	})
+	// Faces still finishing FaceTable.Remove on their own goroutines only have the RIB clean-up left,
+	// which finds nothing (the RIB was emptied above) and is serialised by the RIB's mutex.
 }
 
 func (w *world) addHook(logical int, remote, local string, scope defn.Scope, localFields bool) {
